@@ -205,6 +205,7 @@ def main():
     ap.add_argument("--replay", default=None)
     ap.add_argument("--only", default=None, help="comma separated sub-checks")
     ap.add_argument("--no-evidence", action="store_true")
+    ap.add_argument("--replays-only", action="store_true", help="run committed regression replays and known-finding probes only")
     a = ap.parse_args()
     tier = a.tier if a.tier in ("quick", "thorough") else "quick"
     try:
@@ -315,6 +316,8 @@ def main():
     # ---- generated search -----------------------------------------------------
     tasks = []
     for sub in mod.SUBS:
+        if a.replays_only:
+            break
         if a.only and sub.name not in a.only.split(","):
             continue
         ns = sub.shards_quick if tier == "quick" else sub.shards_thorough
@@ -397,7 +400,7 @@ def main():
             rc = 2
 
     wall = time.time() - t0
-    if not a.no_evidence and not a.only:
+    if not a.no_evidence and not a.only and not a.replays_only:
         ev = {
             "property_id": prop_id,
             "tier": tier,
